@@ -348,6 +348,10 @@ class Interp:
                 v = self.val(e['e'])
                 if isinstance(v, int):
                     return ~v
+            if e['op'] == '-':
+                v = self.val(e['e'])
+                if isinstance(v, int):
+                    return -v
             raise Unmodelled('unary %s' % e['op'])
         if k == 'bin':
             op = e['op']
@@ -361,8 +365,8 @@ class Interp:
             if op == '=':
                 n = path_of(e['l'])
                 r = self.val(e['r'])
-                if n in self.env:
-                    self.env[n] = r
+                if n in self.env or (n or '').startswith('this.'):
+                    self.env[n] = r          # a member of the object behaves like a variable of the evaluation
                     return r
                 raise Unmodelled('assignment at line %s' % e.get('ln'))
             l, r = self.val(e['l']), self.val(e['r'])
